@@ -40,6 +40,7 @@ def short(d):
     return d.strftime("%Y%m%d")[2:]
 
 
+SHARED_NAME_RATE = 0.25
 ZCH = "0123456789ABCDEFGHJKLMNPRTUVWXYZabcdefhkmnorstuvwxz"
 
 
@@ -56,6 +57,8 @@ def deco_words(rng, uid, meta, allow_props=True, n=None, date_values=True):
         r = rng.random()
         name = "%s%d" % (rng.choice(["t", "tag_", "Z"]), uid[0])
         uid[0] += 1
+        if rng.random() < SHARED_NAME_RATE:
+            name = rng.choice(["sh1", "sh2", "Sh3"])     # the same name written in several scopes / on neighbouring items
         punct = rng.choice(["", "", "", ",", ".", ")", ";"])
         if r < 0.15:
             ws.append("#" + name + punct); meta.tags["areas"].append(name)
